@@ -81,9 +81,20 @@ def decode(c):
             ops.append(('defaults',))
         elif o == 3:
             ops.append(('reset',))
+        elif o == 4:
+            ops.append(('add', [nx() for _ in range(nx())]))
+        elif o == 5:
+            pairs = []
+            for _ in range(nx()):
+                i = nx()
+                pairs.append((i, st()))
+            ops.append(('assign2', pairs))
         else:
             break
     return opts, ops
+
+
+NFOREIGN = 6      # options o<n>..o<n+5> of the second context (harness/h_c15.cpp), plain strings
 
 
 def s2t(b):
@@ -103,6 +114,10 @@ def describe(c):
         if op[0] == 'assign':
             pd.append('assign(%s%s)' % (', '.join('o%d=%r' % (i, s2t(v)) for i, v in op[2]),
                                         '' if op[1] is None else '; exclude=%s' % ['o%d' % x for x in op[1]]))
+        elif op[0] == 'add':
+            pd.append('parsed.add(%s)' % ', '.join('"o%d"%s' % (i, '' if i < len(opts) else '[foreign]') for i in op[1]))
+        elif op[0] == 'assign2':
+            pd.append('assign[second context](%s)' % ', '.join('o%d=%r' % (i, s2t(v)) for i, v in op[1]))
         else:
             pd.append(op[0])
     return '[%s] %s' % ('; '.join(od), ' -> '.join(pd))
@@ -207,7 +222,23 @@ def oracle(c, obs):
         if op[0] == 'reset':
             parsed = set()
             continue
-        if op[0] == 'assign':
+        if op[0] == 'add':
+            # names recorded by the caller: options of this context count as mentioned, any other name is just a name in the set
+            parsed |= set(op[1])
+            continue
+        if op[0] == 'assign2':
+            # a source of the SECOND context assigned to the same ParsedOptions object: its (non-composing string) options are recorded
+            # under their names; they are no options of this context
+            got = []
+            for (i, v) in op[1]:
+                if not (n <= i < n + NFOREIGN) or i in parsed:
+                    continue
+                if i in got:
+                    exp_err = (1, i, v)
+                    break
+                got.append(i)
+            parsed |= set(got)
+        elif op[0] == 'assign':
             ex = set(op[1]) if op[1] is not None else set()
             got = []
             for (i, v) in op[2]:
@@ -234,6 +265,7 @@ def oracle(c, obs):
                 parsed.add(i)
                 state[i] = 0
         else:
+            # defaults: EVERY option of the context whose own name is not in the set - however many other names the set holds
             for i in range(n):
                 o = opts[i]
                 if i in parsed or o['dflt'] is None or state[i] == 1:
@@ -262,6 +294,8 @@ def oracle(c, obs):
         if exp_err is None and got_err is not None:
             return ['unexpected-error:type%d' % (got_err[0] - 1)]
         if exp_err is not None and got_err is None:
+            if exp_err[0] == 2 and any(x not in range(n) for x in parsed):
+                return ['invalid-default-of-unmentioned-option-not-reported']     # the parsed set also holds names of other contexts
             return ['missing-error:' + {1: 'multiple_occurrences', 2: 'invalid_default', 3: 'invalid_value'}[exp_err[0]]]
         if exp_err is not None and (exp_err[0], exp_err[1], list(exp_err[2])) != (got_err[0], got_err[1], list(got_err[2])):
             return ['wrong-error:expected-type%d-got-type%d' % (exp_err[0] - 1, got_err[0] - 1)]
@@ -275,6 +309,8 @@ def oracle(c, obs):
             if cnt != (1 if i in parsed else 0):
                 return ['recorded-as-parsed-differs' if cnt else 'not-recorded-as-parsed']
             if s_ != state[i]:
+                if op[0] == 'defaults' and state[i] == 1 and s_ == 0 and i not in parsed:
+                    return ['default-not-applied-to-unmentioned-option']
                 return ['value-state-not-restored' if s_ == 2 else 'value-state-differs']
             if not dirty[i] and content != var[i]:
                 return ['variable-differs:' + KN[opts[i]['kind']]]
@@ -283,7 +319,45 @@ def oracle(c, obs):
 
 def nontrivial(c, obs):
     opts, ops = decode(c)
-    return any(op[0] == 'assign' and op[2] for op in ops)
+    return any((op[0] == 'assign' and op[2]) or op[0] in ('add', 'assign2') for op in ops)
+
+
+def parsed_after(opts, ops):
+    """the names the ParsedOptions object holds after ops (reference semantics of the property; used by the generator to aim the number of
+    foreign names at |options| - |parsed| -1 / 0 / +1)"""
+    n = len(opts)
+    parsed = set()
+    for op in ops:
+        if op[0] == 'reset':
+            parsed = set()
+        elif op[0] == 'add':
+            parsed |= set(op[1])
+        elif op[0] == 'assign2':
+            got = []
+            for (i, v) in op[1]:
+                if not (n <= i < n + NFOREIGN) or i in parsed:
+                    continue
+                if i in got:
+                    break
+                got.append(i)
+            parsed |= set(got)
+        elif op[0] == 'assign':
+            ex = set(op[1]) if op[1] is not None else set()
+            got = []
+            for (i, v) in op[2]:
+                if i >= n:
+                    continue
+                o = opts[i]
+                if not o['comp'] and (i in ex or i in parsed):
+                    continue
+                if not o['comp'] and i in got:
+                    break
+                x, d = parse(o['kind'], o['impl'] if (not v and o['impl'] is not None) else v)
+                if x is None or x == 'unsupported':
+                    break
+                got.append(i)
+            parsed |= set(got)
+    return parsed
 
 
 # ---------------------------------------------------------------- generation
@@ -310,6 +384,58 @@ def rand_val(rnd, kind, p_bad):
     return rnd.choice(GOOD[kind])
 
 
+def gen_foreign(rnd):
+    """A ParsedOptions object that holds names which are NOT options of the context - recorded with ParsedOptions::add and / or by assigning a
+    source of a second context to the same object - handed to assignDefaults.  The number of foreign names is aimed at
+    |options of the context| - |names recorded so far| + {-1, 0, 0, 0, +1}: total size below / EQUAL / above the number of options, with
+    options of the context left unmentioned (they have to be defaulted; an invalid default among them has to be reported)."""
+    base = gen_case(rnd, shape='foreign')
+    opts, ops = decode(base)
+    n = len(opts)
+    while ops and ops[-1][0] == 'defaults':
+        ops.pop()
+    enc = encode(raw_options(base), ops)
+    rounds = rnd.choice([1, 1, 2])
+    for _ in range(rounds):
+        have = parsed_after(opts, decode(enc)[1])
+        k = max(0, n - len(have) + rnd.choice([-1, 0, 0, 0, 0, 1]))
+        if k == 0 and rnd.random() < 0.7:
+            k = 1
+        route = rnd.random()
+        free2 = [i for i in range(n, n + NFOREIGN) if i not in have]
+        ids = []
+        if route < 0.4 or not free2:
+            pool = [i for i in range(n + NFOREIGN, n + NFOREIGN + 12) if i not in have]
+            ids = rnd.sample(pool, min(k, len(pool)))
+            enc += [4, len(ids)] + ids
+        elif route < 0.8:
+            ids = rnd.sample(free2, min(k, len(free2)))
+            enc += [5, len(ids)]
+            for i in ids:
+                enc += [i] + enc_str(rnd.choice(['', 'x', '3', 'a b']))
+            rest = k - len(ids)
+            if rest > 0:
+                pool = [i for i in range(n + NFOREIGN, n + NFOREIGN + 12) if i not in have]
+                more = rnd.sample(pool, min(rest, len(pool)))
+                enc += [4, len(more)] + more
+        else:
+            # a mix, possibly with an own option's name recorded by the caller (then that option counts as mentioned)
+            a = rnd.sample(free2, min(max(k - 1, 0), len(free2)))
+            if a:
+                enc += [5, len(a)]
+                for i in a:
+                    enc += [i] + enc_str('v')
+            b = [rnd.choice([n + NFOREIGN + rnd.randrange(12), rnd.randrange(n)])]
+            enc += [4, len(b)] + b
+        enc += [2]
+        if rnd.random() < 0.3:
+            enc += [2]
+        if rnd.random() < 0.4:
+            i = rnd.randrange(n)
+            enc += [1, 0, 1, i] + enc_str(rand_val(rnd, opts[i]['kind'], 0.1) or '1')
+    return enc
+
+
 def gen_case(rnd, shape=None):
     n = rnd.choice([1, 2, 2, 3, 3, 4, 5, 6])
     enc = [n]
@@ -327,11 +453,11 @@ def gen_case(rnd, shape=None):
         else:
             enc += [0]
             impls.append(k in FLAGS)
-        if rnd.random() < 0.45:
+        if rnd.random() < (0.8 if shape == 'foreign' else 0.45):
             enc += [1] + enc_str(rand_val(rnd, k, 0.25))
         else:
             enc += [0]
-    nops = rnd.choice([1, 2, 2, 3, 3, 4, 5])
+    nops = rnd.choice([0, 1, 1, 2, 2, 3]) if shape == 'foreign' else rnd.choice([1, 2, 2, 3, 3, 4, 5])
     p_bad = rnd.choice([0.0, 0.0, 0.1, 0.25, 0.5])
     p_dup = rnd.choice([0.0, 0.1, 0.3, 0.6])
     for j in range(nops):
@@ -381,6 +507,19 @@ FIXED = [
     [2, 2, 0, 0, 1, 1, 120, 2, 0, 0, 1, 1, 53, 2],
     # flag with empty value / implicit
     [2, 0, 0, 0, 0, 2, 0, 1, 2, 52, 50, 0, 1, 0, 2, 0, 0, 1, 0, 2],
+    # foreign names in the parsed set (ParsedOptions::add / a second context's source): o0:int default 10, o1:string default 'auto'
+    # add("o9","o10") -> defaults  (size 2 == 2 options, both unmentioned)
+    [2, 2, 0, 0, 1, 2, 49, 48, 3, 0, 0, 1, 4, 97, 117, 116, 111, 4, 2, 9, 10, 2],
+    # assign(o0=7) -> add("o9") -> defaults  (size 2 == 2 options, o1 unmentioned)
+    [2, 2, 0, 0, 1, 2, 49, 48, 3, 0, 0, 1, 4, 97, 117, 116, 111, 1, 0, 1, 0, 1, 55, 4, 1, 9, 2],
+    # second context's source o2='x', o3='y' -> defaults (size 2 == 2) ; and with one / three foreign names
+    [2, 2, 0, 0, 1, 2, 49, 48, 3, 0, 0, 1, 4, 97, 117, 116, 111, 5, 2, 2, 1, 120, 3, 1, 121, 2],
+    [2, 2, 0, 0, 1, 2, 49, 48, 3, 0, 0, 1, 4, 97, 117, 116, 111, 5, 1, 2, 1, 120, 2],
+    [2, 2, 0, 0, 1, 2, 49, 48, 3, 0, 0, 1, 4, 97, 117, 116, 111, 5, 3, 2, 1, 120, 3, 1, 121, 4, 0, 2],
+    # invalid default of an unmentioned option, one foreign name (size 1 == 1 option)
+    [1, 2, 0, 0, 1, 2, 49, 120, 4, 1, 5, 2],
+    # the caller records an OWN option's name: that option is mentioned and keeps its value, the other one is defaulted
+    [2, 2, 0, 0, 1, 2, 49, 48, 2, 0, 0, 1, 2, 50, 48, 4, 1, 0, 2],
     # mapped flag declared with store_false: implicit value -> false
     [1, 8, 0, 0, 0, 1, 0, 1, 0, 0],
     # mapped flags, store_true and store_false (default 'off' -> true): assign(o0='off') -> defaults
@@ -395,7 +534,10 @@ def gen(seed, tier):
     total = {'quick': 4000, 'thorough': 150000, 'search': 8000}.get(tier, 4000)
     out = [(c, {'kind': 'fixed'}) for c in FIXED]
     while len(out) < total:
-        out.append((gen_case(rnd), {'kind': 'random'}))
+        if rnd.random() < 0.3:
+            out.append((gen_foreign(rnd), {'kind': 'foreign-names-in-parsed-set'}))
+        else:
+            out.append((gen_case(rnd), {'kind': 'random'}))
     return out
 
 
@@ -412,6 +554,12 @@ def encode(raw_opts, ops):
                 e += [i, len(v)] + list(v)
         elif op[0] == 'defaults':
             e += [2]
+        elif op[0] == 'add':
+            e += [4, len(op[1])] + list(op[1])
+        elif op[0] == 'assign2':
+            e += [5, len(op[1])]
+            for i, v in op[1]:
+                e += [i, len(v)] + list(v)
         else:
             e += [3]
     return e
@@ -461,7 +609,7 @@ def shrink(case, fails):
         # drop the last option when nothing refers to it
         if len(raw) > 1:
             last = len(raw) - 1
-            if not any(op[0] == 'assign' and any(i >= last for i, _ in op[2]) for op in ops):
+            if not any((op[0] == 'assign' and any(i >= last for i, _ in op[2])) or op[0] in ('add', 'assign2') for op in ops):
                 if fails(encode(raw[:-1], ops)):
                     raw, changed = raw[:-1], True
     return encode(raw, ops)
